@@ -1000,11 +1000,27 @@ impl Log {
 			let count = min(max_count, queue.len());
 			queue.drain(0..count).collect()
 		};
+		let mut done = 0;
+		let mut failed = None;
 		for (id, ref mut file) in cleaned.iter_mut() {
 			log::debug!(target: "parity-db", "Cleaned: {}", id);
-			try_io!(file.rewind());
-			try_io!(file.set_len(0));
-			file.sync_all().map_err(Error::Io)?;
+			if let Err(e) = Self::truncate_log_file(file) {
+				failed = Some(e);
+				break
+			}
+			done += 1;
+		}
+		if let Some(e) = failed {
+			// Logs are cleaned oldest first. What was not cleaned goes back to the front of the
+			// queue: no later log may be truncated while these are still on disk.
+			{
+				let mut queue = self.cleanup_queue.write();
+				for entry in cleaned.drain(done..).rev() {
+					queue.push_front(entry);
+				}
+			}
+			self.log_pool.write().extend(cleaned);
+			return Err(e)
 		}
 		// Move cleaned logs back to the pool
 		let mut pool = self.log_pool.write();
@@ -1019,6 +1035,12 @@ impl Log {
 			}
 		}
 		Ok(!self.cleanup_queue.read().is_empty())
+	}
+
+	fn truncate_log_file(file: &mut std::fs::File) -> Result<()> {
+		try_io!(file.rewind());
+		try_io!(file.set_len(0));
+		file.sync_all().map_err(Error::Io)
 	}
 
 	pub fn num_dirty_logs(&self) -> usize {
